@@ -135,7 +135,15 @@ pub fn run_unit_with<'j>(judge_for: &dyn Fn(&str) -> &'j dyn Judge, fams: &[Box<
 pub fn replay(judge: &dyn Judge, case: &J) -> Option<Violation> {
     let m: Module = serde_json::from_value(case["module"].clone()).ok()?;
     let cfg: Option<CfgLite> = serde_json::from_value(case["cfg"].clone()).ok().flatten();
-    match judge.judge(&m, cfg.as_ref()) {
+    let r = judge.judge(&m, cfg.as_ref());
+    if std::env::var_os("CVX_REPLAY_SHOW").is_some() {
+        match &r {
+            JR::Fail { class, what } => eprintln!("judge: FAIL {class}: {what}"),
+            JR::Skip(why) => eprintln!("judge: SKIP {why}"),
+            JR::Pass { outcome, .. } => eprintln!("judge: PASS {outcome}"),
+        }
+    }
+    match r {
         JR::Fail { class, what } => Some(violation_for(judge, &m, cfg.as_ref(), &class, &what, case["origin"].clone())),
         _ => None,
     }
